@@ -2,7 +2,7 @@
    k = K - 6; B k = 2^(2^K); val is the integer a limb tree denotes; wf = every limb in [0, 2^64);
    thr = __RECINT_THRESHOLD_KARA - 6 (every theorem holds for every threshold). *)
 From Coq Require Import ZArith.
-From C06 Require Import Model ProofsBase ProofsRepr ProofsAdd ProofsBits ProofsShift ProofsMul ProofsKara ProofsMulTop ProofsSubW ProofsDiv ProofsDivTop ProofsDivFinal ProofsModn ProofsSquare ProofsExp ProofsArazi ProofsGcd ProofsInvMod ProofsBezout ProofsSigned ProofsMisc ProofsLimbs ProofsMisc2 ProofsAlias ProofsProps ModelNative ProofsNative ProofsNative2 ProofsNative3 ProofsNativeEx.
+From C06 Require Import Model ProofsBase ProofsRepr ProofsAdd ProofsBits ProofsShift ProofsMul ProofsKara ProofsMulTop ProofsSubW ProofsDiv ProofsDivTop ProofsDivFinal ProofsModn ProofsSquare ProofsExp ProofsArazi ProofsGcd ProofsInvMod ProofsBezout ProofsSigned ProofsMisc ProofsLimbs ProofsMisc2 ProofsAlias ProofsProps.
 Local Open Scope Z_scope.
 
 Theorem C06_representation : Repr_exact.            Proof. exact repr_exact. Qed.
@@ -115,40 +115,3 @@ Theorem C06_signed_inverse_modulo_exact : Sinv_mod_exact. Proof. exact sinv_mod_
 Print Assumptions C06_signed_inverse_modulo_exact.
 Theorem C06_lmul_in_place_alias_safe : Lmul_in_place_safe. Proof. exact lmul_in_place_safe. Qed.
 Print Assumptions C06_lmul_in_place_alias_safe.
-(* ---- native operands, constructors and casts, conversions on a used destination, rint<K> with a native operand (ModelNative.v) ---- *)
-Theorem C06_compare_native_exact : Cmp_native_exact. Proof. exact cmp_native_exact. Qed.
-Print Assumptions C06_compare_native_exact.
-Theorem C06_constructor_native_exact : Ctor_native_exact. Proof. exact ctor_native_exact. Qed.
-Print Assumptions C06_constructor_native_exact.
-Theorem C06_cast_native_exact : Cast_native_exact.  Proof. exact cast_native_exact. Qed.
-Print Assumptions C06_cast_native_exact.
-Theorem C06_operators_native_exact : Op_native_exact. Proof. exact op_native_exact. Qed.
-Print Assumptions C06_operators_native_exact.
-Theorem C06_bit_operators_native_exact : Op_native_bits_exact. Proof. exact op_native_bits_exact. Qed.
-Print Assumptions C06_bit_operators_native_exact.
-Theorem C06_reset_exact : Reset_exact.              Proof. exact reset_exact. Qed.
-Print Assumptions C06_reset_exact.
-Theorem C06_mpz_to_ruint_independent_of_destination : Mpz_into_exact. Proof. exact mpz_into_exact. Qed.
-Print Assumptions C06_mpz_to_ruint_independent_of_destination.
-Theorem C06_mpz_to_rint_independent_of_destination : Mpz_rint_into_exact. Proof. exact mpz_rint_into_exact. Qed.
-Print Assumptions C06_mpz_to_rint_independent_of_destination.
-Theorem C06_ruint_to_mpz_exact : Ruint_to_mpz_exact. Proof. exact ruint_to_mpz_exact. Qed.
-Print Assumptions C06_ruint_to_mpz_exact.
-Theorem C06_mpz_round_trip_lossless : Mpz_round_trip_exact. Proof. exact mpz_round_trip_exact. Qed.
-Print Assumptions C06_mpz_round_trip_lossless.
-Theorem C06_rint_to_mpz_independent_of_destination : Rint_to_mpz_into_exact. Proof. exact rint_to_mpz_into_exact. Qed.
-Print Assumptions C06_rint_to_mpz_independent_of_destination.
-Theorem C06_signed_compare_native_exact : Scmp_native_exact. Proof. exact scmp_native_exact. Qed.
-Print Assumptions C06_signed_compare_native_exact.
-Theorem C06_signed_operators_native_exact : Sop_native_exact. Proof. exact sop_native_exact. Qed.
-Print Assumptions C06_signed_operators_native_exact.
-Theorem C06_signed_div_q_native_exact : Sdiv_q_native_exact. Proof. exact sdiv_q_native_exact. Qed.
-Print Assumptions C06_signed_div_q_native_exact.
-Theorem C06_signed_mod_n_same_size_exact : Smod_n1_exact. Proof. exact smod_n1_exact. Qed.
-Print Assumptions C06_signed_mod_n_same_size_exact.
-Theorem C06_exp_mod_native_exponent_exact : Exp_mod_native_exact. Proof. exact exp_mod_native_exact. Qed.
-Print Assumptions C06_exp_mod_native_exponent_exact.
-Theorem C06_decimal_output_exact : Display_dec_exact. Proof. exact display_dec_exact. Qed.
-Print Assumptions C06_decimal_output_exact.
-Theorem C06_max_constants_exact : Max_constants_exact. Proof. exact max_constants_exact. Qed.
-Print Assumptions C06_max_constants_exact.
